@@ -575,3 +575,59 @@ pub fn loop_session(rng: &mut Rng) -> Vec<Sx> {
     }
     texts.iter().map(|t| crate::sx::read_one(t).unwrap_or_else(|e| panic!("loop session text: {} in {}", e, t))).collect()
 }
+
+// ---------------------------------------------------------------------------
+// Call-shape sessions: after a call returns, the caller's bindings are the caller's. The callee is
+// reached through a middle procedure that calls it in tail or non-tail position; callees are
+// fixed-arity and variadic procedures called with 0..3 optional arguments; the caller reads and
+// assigns its own variables and creates closures after the call has returned.
+// ---------------------------------------------------------------------------
+
+fn call_shape_family(rng: &mut Rng, tag: usize) -> Vec<String> {
+    let t = tag;
+    let mut forms = vec![];
+    // the callee
+    let (callee_def, nfixed, variadic): (String, usize, bool) = match rng.below(4) {
+        0 => (format!("(define (cal{t} . opt) (if (null? opt) 'none (car opt)))"), 0, true),
+        1 => (format!("(define (cal{t} p . opt) (list p (length opt)))"), 1, true),
+        2 => (format!("(define (cal{t} p q) (list q p))"), 2, false),
+        _ => (format!("(define (cal{t}) 'thunk)"), 0, false),
+    };
+    forms.push(callee_def);
+    let nopt = if variadic { rng.usize(4) } else { 0 };
+    let args: Vec<String> = (0..nfixed + nopt).map(|i| format!("'arg{}", i)).collect();
+    let call = format!("(cal{t} {})", args.join(" "));
+    // the middle procedure: its own parameters have other values than the caller's
+    let mid_arity = rng.usize(4);
+    let mid_params: Vec<String> = (0..mid_arity).map(|i| format!("m{}", i)).collect();
+    let mid_body = match rng.below(3) {
+        0 => call.clone(),                                   // tail call
+        1 => format!("(if (null? '()) {} 'never)", call),    // tail call through if
+        _ => format!("(car (list {}))", call),               // non-tail call
+    };
+    forms.push(format!("(define (mid{t} {}) {})", mid_params.join(" "), mid_body));
+    let mid_args: Vec<String> = (0..mid_arity).map(|i| format!("{}", 100 * (i + 1))).collect();
+    let mid_call = format!("(mid{t} {})", mid_args.join(" "));
+    // the caller
+    let outer = match rng.below(4) {
+        0 => format!("(define (out{t} x y z) {mid_call} (list x y z))"),
+        1 => format!("(define (out{t} x y z) (let ((get (lambda () (list x y z)))) (set! x 'new-x) {mid_call} (set! z 'new-z) (get)))"),
+        2 => format!("(define (out{t} x y z) (define r {mid_call}) (lambda () (list r x y z)))"),
+        _ => format!("(define (out{t} x y z) (list x {mid_call} y (let ((w z)) {mid_call} w) z))"),
+    };
+    forms.push(outer);
+    forms.push(format!("(define res{t} (out{t} 1 2 3))"));
+    forms.push(format!("(if (procedure? res{t}) (res{t}) res{t})"));
+    // once more from inside another activation
+    forms.push(format!("((lambda (a b) (let ((r (out{t} a b 'c))) (list a (if (procedure? r) (r) r) b))) 'p 'q)"));
+    forms
+}
+
+pub fn call_shape_session(rng: &mut Rng) -> Vec<Sx> {
+    let n = 1 + rng.usize(3);
+    let mut texts = vec![];
+    for tag in 0..n {
+        texts.extend(call_shape_family(rng, tag));
+    }
+    texts.iter().map(|t| crate::sx::read_one(t).unwrap_or_else(|e| panic!("call shape text: {} in {}", e, t))).collect()
+}
